@@ -944,6 +944,9 @@ impl Parser {
                 let height = self.parsed_numbers[1].min(60).max(1);
                 buf.terminal_state.set_width(width);
                 buf.terminal_state.set_height(height);
+                // margins of the old size may lie outside the new screen
+                buf.terminal_state.clear_margins_top_bottom();
+                buf.terminal_state.clear_margins_left_right();
                 Ok(CallbackAction::ResizeTerminal(width, height))
             }
             _ => Err(ParserError::UnsupportedEscapeSequence(format!("Unsupported window manipulation sequence {:?}", self.current_escape_sequence)).into()),
